@@ -30,6 +30,10 @@ func readOnlyRoots(p *load.Prog, g *cg.Graph) (explicit []*ssa.Function, accesso
 	add(p.Method(load.PkgRoot, "IndividualNode", "SurroundingSimilarity"))
 	add(p.Method(load.PkgRoot, "IndividualNodes", "Compare"))
 	add(p.Method(load.PkgRoot, "IndividualNodes", "Similarity"))
+	// renderers of lists of records (also what the q GEDCOM formatter calls for .Individuals)
+	add(p.Method(load.PkgRoot, "IndividualNodes", "GEDCOMString"))
+	add(p.Method(load.PkgRoot, "IndividualNodes", "String"))
+	add(p.Method(load.PkgRoot, "IndividualNodes", "Nodes"))
 	add(p.Func(load.PkgRoot, "CompareNodes"))
 	add(p.Func(load.PkgRoot, "DeepEqual"))
 	add(p.Func(load.PkgRoot, "DeepEqualNodes"))
